@@ -47,7 +47,7 @@ Canon(v) ==
 
 ---------------------------------------------------------------------------
 (* bounded universe *)
-Keys == {<<97>>, <<98>>, <<97, 97>>, <<228>>}                    \* a b aa ä
+Keys == {<<97>>, <<98>>, <<97, 97>>, <<228>>, <<181>>}             \* a b aa ä µ (U+00B5 is not NFKC-stable)
 Scalars == {JNull, JBool(TRUE), JBool(FALSE), JInt(0), JInt(1), JInt(0 - 1), JInt(10),
             JFlt(<<49, 46, 48>>), JFlt(<<48, 46, 53>>),            \* 1.0  0.5
             JStr(<<>>), JStr(<<49>>), JStr(<<97>>), JStr(<<233>>), \* "" "1" "a" "é"
